@@ -98,6 +98,32 @@ var c14Hostile = []string{
 	`gmp = {"n": 0}; func zz_setgmp() {gmp.n = gmp.n + 1; nil}`,
 }
 
+// Round 8: every operator expression in every operand slot of a function body (a map value written (a && b) must be
+// saved with its parentheses: the slot decides which operators need them).
+func init() {
+	exprs := []string{"a = b", "y => y + a", "-a", "!a", "a++", "if a > b {a} else {b}", "a[0]", "a.k", "a(b)", "[a, b]", "{a: b}", "a:b"}
+	for _, op := range []string{"+", "-", "*", "/", "%", "==", "!=", "<", "<=", ">", ">=", "&&", "||", "&", "|", "^", "<<", ">>"} {
+		exprs = append(exprs, "a "+op+" b")
+	}
+	slots := []string{`{"r": (%s)}.r`, `{"r": (%s), "s": 1}`, `{(%s): 1}`, `[(%s)][0]`, `[1, 2, 3][(%s)]`, `max((%s), 0)`, `"abcdef"[(%s):4]`, `"abcdef"[1:(%s)]`,
+		`(%s) + 1`, `1 - (%s)`, `-(%s)`, `!(%s)`, `x = (%s); x`, `(%s).k`, `(%s)[0]`, `(%s)(1)`, `if (%s) {1} else {2}`, `for i = (%s) {return i}; 0`}
+	k := 0
+	var line []string
+	for si, sl := range slots {
+		for ei, e := range exprs {
+			line = append(line, fmt.Sprintf("func s%d_%d(a, b) {%s}", si, ei, strings.ReplaceAll(sl, "%s", e)))
+			k++
+			if k%30 == 0 {
+				c14Hostile = append(c14Hostile, strings.Join(line, "; "))
+				line = nil
+			}
+		}
+	}
+	if len(line) > 0 {
+		c14Hostile = append(c14Hostile, strings.Join(line, "; "))
+	}
+}
+
 // c14Setters: a session whose only change to the globals is made by calling the function; the saved file must then hold the line.
 var c14Setters = []struct{ fn, want string }{
 	{"zz_setgx", "\ngx=5\n"}, {"zz_incgc", "\ngc=2\n"}, {"zz_ppgp", "\ngp=1\n"}, {"zz_appgar", "\ngar=[1.5]\n"}, {"zz_setgmp", "\ngmp={\"n\":1}\n"},
